@@ -155,15 +155,20 @@ CHECKS = {
          "manpage; two rounds must be identical).",
          "4/C04", "Rocq proof (ledger bound invariant, loop termination) + differential with explicit panic/fuel outcomes + run histories under catch_unwind"),
  "C01": ("proof", "PARTIAL. coq/Model/Conv.v states the declared grammar: `level` (conventional fragment: uniquely named switches/flags/"
-         "required flags/counted/repeated flags/arguments x {required, optional, many, some, fallback, last}, positional suffix "
-         "Req* Opt* (Many|Some)?, subcommand trees with aliases), `compile` (the combinator term) and `denote` (one left-to-right "
-         "attribution scan, then arity and value checks; Unspecified exactly for the property's carve-outs and help requests). "
-         "Theorem proved (coq/Props/C01.v): the `unknown name` half of Reject for whole subcommand trees -- a key no item of the "
-         "tree owns is never swallowed, no value is returned -- as a corollary of C05's exactly-once theorem. The full refinement "
-         "(denote = Accept v -> Ok v; Reject -> stderr) is stated in Props/C01.v and NOT proved in this revision; it is decided "
-         "per run by conformance of the implementation against `denote` (4000 vectors quick: sentences in every spelling/order, "
-         "near-miss and mutated non-sentences, salted vectors) together with the evaluator model on Coq's `compile` of the same level.",
-         "4/C01", "Rocq: declarative grammar Conv.denote + partial proof (unowned keys never accepted) + conformance differential implementation vs denote"),
+         "required flags/counted/repeated flags/arguments x {required, optional, many, some, fallback, last}, positional suffix, "
+         "subcommand trees with aliases), `compile` (the combinator term) and `denote` (one left-to-right attribution scan giving "
+         "every token a role, then arity and value checks; Unspecified exactly for the property's carve-outs and help requests). "
+         "PROVED (coq/Props/C01.v): C01_sentences_accepted_flat -- for every flat level (no subcommands) satisfying the decidable "
+         "condition flat_ok, denote = Accept v implies run_inner = Ok v, for every argv; by refinement in two layers: AbsSim.v (the "
+         "evaluator of the fragment flags/arguments/positionals/construct!/optional/many/some/count/last/fallback depends on the "
+         "ledger only through its live tokens: simulation with an interpreter over token lists, mutual induction over the parser) "
+         "and ConvRefine.v (that interpreter on the compiled level computes what the scan attributes: each item pops exactly its "
+         "own occurrences in order, the positional suffix takes the remaining words, nothing is left). Also proved: a key no item "
+         "of a whole subcommand tree owns is never swallowed (corollary of C05). NOT proved: Accept for subcommand trees; the rest "
+         "of Reject -> stderr. Those are decided per run by conformance of the implementation against `denote` (4000 vectors quick: "
+         "sentences in every spelling/order, near-miss and mutated non-sentences, salted vectors; flat_ok is evaluated on every "
+         "generated level so the evidence says how many cases the theorem covers) and of the evaluator model on Coq's `compile`.",
+         "4/C01", "Rocq proof by refinement (token-list interpreter simulation + scan/attribution equivalence) for flat levels + conformance differential implementation vs denote"),
  "C17": ("proof", "PARTIAL by nature: the proc-macro (syn-level Rust) is not modelled. coq/Model/Derive.v states the documented rules "
          "(implicit consumer and shape from the field type, kebab-case naming incl. single-character names, what short/long/env/"
          "argument/positional/fallback/doc comments override, unit-variant and command names, group_help of nested parsers) as a "
